@@ -14,7 +14,7 @@ func runC04(e *Env) error {
 	rg := e.Rng
 	r.Rule = "(a) tag-free byte strings render as themselves; (b) literal chunks (multi-byte, invalid UTF-8, NUL, lone braces, %, quotes, line breaks) interleaved with print tags of marker variables and comments: " +
 		"output = chunks interleaved with values, each chunk exactly once and in order; (c) comment bodies containing tags/calls are never evaluated (spy counters); (d) verbatim bodies render the same under different contexts; " +
-		"every case also goes through the Lean pipeline model; non-trivial = has at least one tag and one non-empty chunk; distinct by source"
+		"(e) chunks around tags with partly scannable content (unclosed quotes, backslashes, bytes without a scanner rule, empty tags): model and unit-by-unit concatenation; (f) *Template objects held across re-registration, other parses and setting changes keep rendering their own text; every case also goes through the Lean pipeline model; non-trivial = has at least one tag and one non-empty chunk; distinct by source"
 	// (a) tag-free text
 	n := e.N(400, 20000)
 	for i := 0; i < n && !r.Full(); i++ {
@@ -134,6 +134,12 @@ func runC04(e *Env) error {
 		r.Seen("esc:"+src, true)
 		r.Hit("escaped-openers")
 	}
+	// (e) literal text around tags whose content the expression scanner only partly understands (c04_sloppy.go)
+	if err := sloppyTagCases(e); err != nil {
+		return err
+	}
+	// (f) templates held by the caller while the engine re-registers, parses and reconfigures (c04_held.go)
+	heldTemplateCases(e)
 	// (b3) literal text of a macro body, escaped openers included, is what the same text is at the top level
 	for i := 0; i < e.N(60, 2000) && !r.Full(); i++ {
 		var sb strings.Builder
